@@ -127,6 +127,7 @@ pub open spec fn tree_hdr_bad_magic(big: bool, c: Seq<u8>, at: int) -> bool {
 }
 
 //@extract fn bigtools/src/bbi/bbiread.rs read_cir_tree_header
+//@rule R16
 //@rule R8
 //@sub /<R: Read \+ Seek>/ => "" min=1
 //@sub /file: &mut R,/ => file: &mut VRead, min=1
@@ -300,6 +301,7 @@ pub struct VBbi { pub read: VRead, pub info: BBIFileInfo }
 
 impl VBbi {
 //@extract fn bigtools/src/bbi/bbiread.rs full_data_cir_tree
+//@rule R16
 //@rule R8
 //@sub /^(\s*)fn full_data_cir_tree/ => \1pub fn full_data_cir_tree min=1
 //@sub /let \(reader, info\) = self\.reader_and_info\(\);/ => let reader = &mut self.read; let info = &mut self.info; min=1
@@ -354,6 +356,7 @@ impl VBbi {
 //@end
 
 //@extract fn bigtools/src/bbi/bbiread.rs zoom_cir_tree
+//@rule R16
 //@rule R8
 //@sub /^(\s*)fn zoom_cir_tree/ => \1pub fn zoom_cir_tree min=1
 //@sub /let \(reader, info\) = self\.reader_and_info\(\);/ => let reader = &mut self.read; let info = &mut self.info; min=1
